@@ -124,14 +124,17 @@ class MessageHandler(Generic[_T, _K]):
         def _handler(message: _T):
             if timeout_task:
                 timeout_task.cancel()
-            # Whatever was awaiting this future now owns this message
-            if take:
-                message = message.take()
-            if not fut.done():
-                fut.set_result(message)
             # Make sure to unregister this handler for all message types
             for n in notifiers:
                 n.unsubscribe(_handler)
+            # Whoever was awaiting this went away (cancelled), nobody to own the message
+            # so leave it alone rather than taking it out of the normal flow.
+            if fut.done():
+                return
+            # Whatever was awaiting this future now owns this message
+            if take:
+                message = message.take()
+            fut.set_result(message)
 
         for notifier in notifiers:
             notifier.subscribe(_handler, predicate=predicate)
